@@ -223,8 +223,10 @@ def method_sweep(ctx):
           "modelled_as_read_ops": sorted(n for n in table if n in modelled),
           "readers_not_in_the_model_(oracle_only)": sorted(n for n, e in table.items() if e["status"] == "called" and not e["changed"] and n not in modelled and n not in ASSIGNERS)}
     ctx.cov["mlrval_method_sweep"] = ev
-    for n, e in table.items():
-        if e["changed"] and n not in ASSIGNERS and not n.startswith("Set"):
+    nrep = 0
+    for n, e in sorted(table.items()):
+        if e["changed"] and n not in ASSIGNERS and not n.startswith("Set") and nrep < 3:
+            nrep += 1
             flag, first = e["first"]
             ctx.violation({"broken": "oracle: an exported *Mlrval method that is not an assignment changes the text of a value taken from data",
                            "kind": "method-sweep", "method": n, "flag": flag, "input_hex": "" if first == "(empty)" else first,
